@@ -40,6 +40,7 @@ type Row struct {
 	Chk    bool   `json:"chk"`  // check_header
 	Sasl   Sasl   `json:"sasl"` // endpoint rows: mechanism and authorization identity
 	Nb     string `json:"nb"`   // endpoint rows: neighbour check: absent | none | quarantine | reject
+	Act    string `json:"act"`  // action directives: default | reject | quarantine | custom_reject | custom_quarantine
 	Fam    string `json:"fam"`
 }
 
@@ -58,6 +59,8 @@ var mailbox = map[string][2]string{
 	"look":    {loc, dom + "." + evil},
 	"sub":     {loc, "mail." + dom},
 	"suffix":  {loc, "evil" + dom},
+	"ivy":     {"ivy", dom},
+	"ivyd":    {"\u0130vy", dom}, // capital I with dot above: not the same mailbox, but strings.ToLower makes it "ivy"
 }
 
 func nfd(s string) string {
@@ -199,14 +202,15 @@ func q(s string) string { return fmt.Sprintf("%q", s) }
 
 // CheckConfig is the configuration block body of check.authorize_sender for
 // an entitlement table kind and a normalisation setting.
-func CheckConfig(tbl, norm string, chk bool) string {
+func CheckConfig(tbl, norm string, chk bool, act string) string {
 	self, alias := Addr(Item{"self", "plain"}), Addr(Item{"alias", "plain"})
+	peer, ivy := Addr(Item{"peer", "plain"}), Addr(Item{"ivy", "plain"})
 	var s string
 	switch tbl {
 	case "identity":
 		s = "user_to_email identity\n"
 	case "list":
-		s = "user_to_email static {\n    entry " + q(self) + " " + q(self) + " " + q(alias) + "\n}\n"
+		s = "user_to_email static {\n    entry " + q(self) + " " + q(self) + " " + q(alias) + " " + q(ivy) + "\n}\n"
 	case "domain":
 		s = "user_to_email static {\n    entry " + q(self) + " " + q(dom) + "\n}\n"
 	case "star":
@@ -215,8 +219,31 @@ func CheckConfig(tbl, norm string, chk bool) string {
 		s = "user_to_email static {\n    entry \"someone@else.example\" \"someone@else.example\"\n}\n"
 	case "prepare":
 		s = "user_to_email identity\nprepare_email static {\n    entry " + q(alias) + " " + q(self) + "\n}\n"
+	case "chain_req": // both steps required; V is in no group
+		s = "user_to_email chain {\n" +
+			"    step static {\n        entry " + q(self) + " \"grp-u\"\n    }\n" +
+			"    step static {\n        entry \"grp-u\" " + q(self) + " " + q(alias) + "\n    }\n}\n"
+	case "chain_dom": // the tenant key of U is the domain name and has no sender addresses
+		s = "user_to_email chain {\n" +
+			"    step static {\n        entry " + q(self) + " " + q(dom) + "\n        entry " + q(peer) + " \"grp-v\"\n    }\n" +
+			"    step static {\n        entry \"grp-v\" " + q(peer) + "\n        entry \"other.example\" \"noreply@other.example\"\n    }\n}\n"
+	case "chain_opt": // a miss in an optional step passes the user name on
+		s = "user_to_email chain {\n" +
+			"    optional_step static {\n        entry " + q(self) + " " + q(self) + " " + q(alias) + "\n    }\n}\n"
 	default:
 		panic("unknown table kind " + tbl)
+	}
+	switch act {
+	case "", "default":
+	case "reject", "quarantine":
+		s += "unauth_action " + act + "\nno_match_action " + act + "\nerr_action " + act + "\n"
+	case "custom_reject", "custom_quarantine":
+		a := strings.TrimPrefix(act, "custom_")
+		s += "unauth_action " + a + " 530 5.7.0 \"Log in first\"\n" +
+			"no_match_action " + a + " 553 5.7.1 \"This sender address is not yours\"\n" +
+			"err_action " + a + " 451 4.7.0 \"Try again later\"\n"
+	default:
+		panic("unknown action kind " + act)
 	}
 	if !chk {
 		s += "check_header no\n"
